@@ -87,6 +87,33 @@ PROPS["C17"] = {
 }
 
 
+SER_MODELLED = CORE_MODELLED + ["modelled, not verified: bincode 1.3 wire format (fixint LE, u64 lengths, u32 variant tags, UTF-8 chars), serde derive layout, the serde impls of emap/micromap/microstack; the real image is compared with the model's encoding byte for byte on every sampled graph"]
+PROPS["C08"] = {
+    "quick": [("ser", 120, 90)],
+    "thorough": [("ser", 2500, 240), ("serall", 200, 120)],
+    "rule": "graphs out of gc/rw histories (after collections, stale slots, heap and inline data with padding, unread and read data, all label variants with 1-4 byte characters), N in {1,2,4,16}, capacity 3..64; save, reload, then the same continuation on the original and the reloaded graph and different continuations with the other handle observed; non-trivial = at least one collection in the history",
+    "nontrivial": "collections",
+    "modelled": SER_MODELLED,
+    "partial": ["WfG (sizes fit 64-bit fields, <= N edges, <= 16 members) is a hypothesis of load_save; it is proved for a concrete graph and holds of every reachable graph, but `Reach -> WfG` is not yet a theorem"],
+}
+PROPS["C09"] = {
+    "quick": [("ser", 80, 90)],
+    "thorough": [("serall", 600, 160), ("ser", 1000, 240)],
+    "rule": "for each sampled graph the real load() is called on prefixes of the real image: quick = the first and last 64 cut points and every 7th in between, thorough (serall) = every cut point; evaluations counts cut points; non-trivial = a history whose graph holds at least one collection-surviving state (>= 5 judged calls)",
+    "nontrivial": "any5",
+    "modelled": SER_MODELLED,
+    "partial": ["WfG is a hypothesis of truncated_rejected (see C08)"],
+}
+PROPS["C10"] = {
+    "quick": [("fork", 250, 120)],
+    "thorough": [("fork", 5000, 300)],
+    "rule": "prefix from gc/alloc/cycle profiles, clone, then (A) the same calls on both copies (next_id included), (B) different calls on the two copies with the other copy observed after every call, drain of both; non-trivial = at least one collection",
+    "nontrivial": "collections",
+    "modelled": CORE_MODELLED + ["PARTIAL: the deep-copy behaviour of the containers' Clone impls lives in the Rust runtime and is decided by the correspondence only"],
+    "partial": ["Props.C10.same_future_partial (the pure model cannot express aliasing; independence is decided by the differential run)"],
+}
+
+
 def nontrivial(prop, h):
     first, last, coll, readds, overw, nextids, judged = h[:7]
     kind = PROPS[prop].get("nontrivial", "any")
@@ -100,6 +127,8 @@ def nontrivial(prop, h):
         return nextids >= 2
     if kind == "cycles":
         return coll >= 15
+    if kind == "any5":
+        return judged >= 5
     return judged >= 5 and (coll >= 1 or nextids >= 1)
 
 
